@@ -154,31 +154,28 @@ with good_alt (val : bool) (c : N) (al : alts) (v : value) {struct al} : Prop :=
   | ACons c' s r => if c =? c' then good val s v else good_alt val c r v
   end.
 
-(* ---------- validators: encoder side = decoder side on non-empty elements ---------- *)
+(* ---------- validators (the same function on the encoder and the decoder side) ---------- *)
 
-Lemma validate_nilempty : forall r st e, e <> [] -> validate r true st e = validate r false st e.
-Proof. intros r st e H. unfold validate, mkprev. destruct e; [congruence | reflexivity]. Qed.
-
-Lemma validate_no_validator : forall r ne st e, has_validator r = false -> validate r ne st e = Ok st.
+Lemma validate_no_validator : forall r st e, has_validator r = false -> validate r st e = Ok st.
 Proof.
-  intros r ne st e H. unfold has_validator in H.
+  intros r st e H. unfold has_validator in H.
   apply orb_false_elim in H as [H H4]. apply orb_false_elim in H as [H H3]. apply orb_false_elim in H as [H1 H2].
   unfold validate. rewrite H1, H2, H3, H4. simpl. destruct st; reflexivity.
 Qed.
 
 (* ---------- the loop on the concatenation of the element encodings ---------- *)
 
-Fixpoint vfold (r : arules) (ne : bool) (st : vstate) (data : list bytes) : res vstate :=
+Fixpoint vfold (r : arules) (st : vstate) (data : list bytes) : res vstate :=
   match data with
   | [] => Ok st
-  | e :: rest => let* st' := validate r ne st e in vfold r ne st' rest
+  | e :: rest => let* st' := validate r st e in vfold r st' rest
   end.
 
-Lemma validate_all_vfold : forall r ne data st, validate_all r ne st data = Ok tt <-> exists st', vfold r ne st data = Ok st'.
+Lemma validate_all_vfold : forall r data st, validate_all r st data = Ok tt <-> exists st', vfold r st data = Ok st'.
 Proof.
   induction data as [| e rest IH]; intros st; simpl.
   - split; eauto.
-  - destruct (validate r ne st e) eqn:E; simpl.
+  - destruct (validate r st e) eqn:E; simpl.
     + apply IH.
     + split; [discriminate | intros [? ?]; discriminate].
     + split; [discriminate | intros [? ?]; discriminate].
@@ -196,7 +193,7 @@ Section Loop.
     (forall done x todo' acc tail, all = done ++ x :: todo' -> inv done acc ->
        item acc (enc x ++ tail) = Ok (step acc x, length (enc x)) /\ inv (done ++ [x]) (step acc x)) ->
     (forall x, In x all -> enc x <> []) ->
-    (val = true -> validate_all r true st (map enc todo) = Ok tt) ->
+    (val = true -> validate_all r st (map enc todo) = Ok tt) ->
     seq_loop item val r (length todo) st acc (concat (map enc todo) ++ rest)
     = Ok (fold_left step todo acc, length (concat (map enc todo))).
   Proof.
@@ -210,13 +207,13 @@ Section Loop.
         by (symmetry; apply Nat.ltb_ge; lia).
       rewrite firstn_app_exact, skipn_app_exact.
       assert (Hx : enc x <> []). { apply Hne. rewrite Hall. apply in_or_app. right. left. reflexivity. }
-      assert (Hv : exists st', (if val && has_validator r then validate r false st (enc x) else Ok st) = Ok st'
-                               /\ (val = true -> validate_all r true st' (map enc xs) = Ok tt)).
+      assert (Hv : exists st', (if val && has_validator r then validate r st (enc x) else Ok st) = Ok st'
+                               /\ (val = true -> validate_all r st' (map enc xs) = Ok tt)).
       { destruct val; cbn [andb].
         - specialize (Hval eq_refl). cbn [map validate_all] in Hval.
-          destruct (validate r true st (enc x)) eqn:E; simpl in Hval; try discriminate.
+          destruct (validate r st (enc x)) eqn:E; simpl in Hval; try discriminate.
           destruct (has_validator r) eqn:Hh.
-          + exists a. rewrite <- validate_nilempty by assumption. rewrite E. auto.
+          + exists a. auto.
           + exists st. split; auto. intros _. rewrite validate_no_validator in E by assumption. inversion E; subst. exact Hval.
         - exists st. split; auto. discriminate. }
       destruct Hv as [st' [Hv1 Hv2]]. rewrite Hv1. cbn [bind].
@@ -243,7 +240,7 @@ Lemma dec_seq_ok : forall {A X} (item : A -> bytes -> res (A * nat)) val l r tot
   (forall done x todo' acc tail, xs = done ++ x :: todo' -> inv done acc ->
      item acc (enc x ++ tail) = Ok (step acc x, length (enc x)) /\ inv (done ++ [x]) (step acc x)) ->
   (forall x, In x xs -> enc x <> []) ->
-  (val = true -> validate_all r true vinit (map enc xs) = Ok tt) ->
+  (val = true -> validate_all r vinit (map enc xs) = Ok tt) ->
   dec_seq item val l r false tot init ((pre ++ concat (map enc xs)) ++ rest)
   = Ok (fold_left step xs init, length (pre ++ concat (map enc xs))).
 Proof.
@@ -760,3 +757,14 @@ Example refuted_optional_zero_size :
   let v := VL [VL []] in
   Encode true s v = Ok [0; 0; 0; 0] /\ Decode true s [0; 0; 0; 0] = Ok (VL [VNil], 4%nat) /\ VL [VNil] <> v.
 Proof. repeat split; try (vm_compute; reflexivity). discriminate. Qed.
+
+(* Regression for fix a52b77b (was finding zero-size-element-roundtrip-decode-fails): duplicates of zero-size elements
+   under the lexical-order + no-duplicates rules are rejected by the validating encoder, as they are by the decoder
+   (before the fix Encode produced [2], which Decode rejects with EDup); without validation the value still round-trips
+   through the iteration count alone. *)
+Example fixed_zero_size_duplicates :
+  let s := SSlice L8 (mkAR 0 0 true true false false [] false) (SStruct None FNil) in
+  let v := VL [VL []; VL []] in
+  Encode true s v = Err EDup /\ Decode true s [2] = Err EDup /\
+  Encode false s v = Ok [2] /\ Decode false s [2] = Ok (v, 1%nat).
+Proof. repeat split; vm_compute; reflexivity. Qed.
